@@ -45,6 +45,14 @@ def gen(tier, seed):
         form = rnd.choice([["dec", t, "default"], ["dec", t, "default"], ["set", p], ["dec", t, "none"],
                            ["dec", t, fs(F(1, 10 ** 5))]])
         cases.append(dict(mk(), k="round", elevate=t, op=form))
+        # round trip with NEW knots inserted exactly t times after the elevation (multiplicity t at degree p + t is
+        # multiplicity 0 at degree p: the curve is still representable, the reduction must succeed and restore it)
+        ks = sorted(set(U))
+        t2 = rnd.randint(1, tmax)
+        mids = [(x + y) / 2 for x, y in zip(ks[:-1], ks[1:])]
+        ins = rnd.sample(mids, min(len(mids), rnd.randint(1, 2)))
+        cases.append(dict(mk(), k="round", elevate=t2, insert=fsl(sorted(ins * t2)),
+                          op=rnd.choice([["dec", t2, "default"], ["set", p], ["dec", t2, "none"]])))
         # generic reduction
         if p >= 1:
             t = rnd.randint(1, p)
@@ -54,6 +62,12 @@ def gen(tier, seed):
                 cases.append(dict(mk(), k="generic", op=["set", p - t]))
             if rnd.random() < 0.2:
                 cases.append(dict(mk(), k="generic", op=["dec", rnd.choice((0, -2, p + 1)), rnd.choice(("default", "none"))]))
+    # reductions by many degrees in one call (the quadrature of the projection must cover old + new degree)
+    for (p, t) in ([(6, 4), (5, 4)] if tier == "quick" else [(6, 4), (5, 4), (6, 5), (7, 4), (5, 3)]):
+        U = [F(-1)] * (p + 1) + [F(3, 2)] * (p + 1)
+        for tol in ("none", "default", fs(F(10 ** 6))):
+            cases.append({"U": fsl(U), "p": p, "scalar": True, "P": pts_json(rand_points(rnd, p + 1, 1)), "W": None,
+                          "kind": "bezier-high", "mults": [], "k": "generic", "op": ["dec", t, tol]})
     # high degrees / many steps at once on Bezier curves (binomial-coefficient territory)
     for (p, t, form) in ([(7, 1, "inc"), (8, 1, "set"), (1, 7, "set"), (2, 8, "inc")] if tier == "quick" else
                          [(7, 1, "inc"), (8, 1, "set"), (1, 7, "set"), (2, 8, "inc"), (10, 1, "inc"), (3, 10, "set"), (9, 2, "inc")]):
@@ -73,6 +87,8 @@ def impl(case):
     if case["k"] == "round":
         orig = curve_state(curve)
         curve.degree_increase(case["elevate"])
+        if case.get("insert"):
+            curve.knot_insert(nums(case["insert"]))
     # the same operation on a float copy first, in the same process (matrices memoised per degree must not carry
     # the number class of an earlier call into exact data)
     def _other():
